@@ -287,3 +287,67 @@ Print Assumptions c01_legalize_trivial.
 Print Assumptions c01_never_fails_when_trivial.
 Print Assumptions c01_trivial_invalid_orientation_refuted.
 Print Assumptions c01_trivial_duplicate_order_refuted.
+
+(* ======================================================================================== *)
+(* C01 for the CLOSED model of DetailedPlacer::legalize: the cell order is computed by the model of
+   LegalizerBase::computeCellOrder (CellOrder.v) instead of being a parameter.
+   legalize_real p c = legalize_circuit c (cell_order p c), p = (orderingWidth, orderingY, orderingHeight) as rationals.
+   Every theorem is the order-parametric theorem above instantiated with the computed order; the new content is that the
+   computed order satisfies side condition (b) of c01_never_fails_when_trivial (a permutation of 0..n-1).  Tie: the model's
+   order is compared exactly with the vector returned by the real computeCellOrder wherever the binary32 evaluation of the key
+   is exact (checks/c11_order.py, tag OR). *)
+From Coq Require Import QArith Permutation.
+Require Import CV.CellOrder CV.CellOrderProofs.
+Local Open Scope Z_scope.
+(* [F] the computed order is a permutation of the indices of the movable cells, for all parameters *)
+Theorem c01_cell_order_permutation : forall p c,
+  Permutation (cell_order p c) (seq 0 (length (movable c))).
+Proof. exact cell_order_perm. Qed.
+
+(* [F] hence it satisfies side condition (b) of c01_never_fails_when_trivial *)
+Theorem c01_cell_order_lists_every_cell_once : forall p c,
+  NoDup (cell_order p c) /\ (forall ci, (ci < length (movable c))%nat -> In ci (cell_order p c)).
+Proof. exact cell_order_lists_every_cell_once. Qed.
+
+(* [F on std_design, every parameter set] a placement returned by the closed model is legal *)
+Theorem c01_legalize_real_legal : forall p c c' rh,
+  std_design c rh -> legalize_real p c = LegOk c' -> legal c'.
+Proof. exact legalize_real_legal. Qed.
+
+(* [F] frame of a successful run of the closed model *)
+Theorem c01_legalize_real_frame : forall p c c',
+  legalize_real p c = LegOk c' -> rows c' = rows c /\ Forall2 same_frame (cells c) (cells c').
+Proof. exact legalize_real_frame. Qed.
+
+(* [F] last clause of C01 for the closed model: side condition (b) is discharged, (a) stays
+   (c01_trivial_invalid_orientation_refuted) *)
+Theorem c01_legalize_real_never_fails_when_trivial : forall p c,
+  trivially_feasible c = true -> (forall k, In k (movable c) -> c_o k <> oINVALID) ->
+  exists c', legalize_real p c = LegOk c'.
+Proof. exact legalize_real_trivially_feasible. Qed.
+
+(* non-vacuity, on the example circuits of Properties_C01.v with the parameters of effort 3
+   (orderingWidth 0.2, orderingY 0, orderingHeight -1): the computed orders (cells 1 and 2 of ex_circuit
+   have EQUAL keys 18/5: the index decides), a successful run on the
+   illegal ex_circuit (std_design: c01_legalize_circuit_nonvacuous) giving a legal circuit with the
+   prescribed orientations, and a successful run on the trivially feasible ex_trivial *)
+Definition p_effort3 : order_params := {| op_w := 1 # 5; op_y := 0; op_h := -1 # 1 |}.
+Example c01_order_nonvacuous :
+  cell_order p_effort3 ex_circuit = [0%nat; 1%nat; 2%nat] /\
+  (exists c', legalize_real p_effort3 ex_circuit = LegOk c' /\ c' <> ex_circuit /\
+              legalb c' = true /\ orient_okb ex_circuit c' = true) /\
+  trivially_feasible ex_trivial = true /\
+  cell_order p_effort3 ex_trivial = [2%nat; 0%nat; 1%nat] /\
+  (exists c', legalize_real p_effort3 ex_trivial = LegOk c' /\ legalb c' = true).
+Proof.
+  split; [vm_compute; reflexivity|]. split.
+  - eexists. split; [vm_compute; reflexivity|]. split; [discriminate|]. split; vm_compute; reflexivity.
+  - split; [vm_compute; reflexivity|]. split; [vm_compute; reflexivity|].
+    eexists. split; vm_compute; reflexivity.
+Qed.
+
+Print Assumptions c01_cell_order_permutation.
+Print Assumptions c01_cell_order_lists_every_cell_once.
+Print Assumptions c01_legalize_real_legal.
+Print Assumptions c01_legalize_real_frame.
+Print Assumptions c01_legalize_real_never_fails_when_trivial.
